@@ -1,6 +1,13 @@
 """Bounded layer for C04: clauses of C04 evaluated on audited generations of the real code (see monitor/gendrive.py)."""
-from . import gendrive
+from . import gendrive, harness
 
 
 def run(tier="quick", seed=0):
-    return gendrive.run_for(["C04"], tier, seed)
+    out = gendrive.run_for(["C04"], tier, seed, rule_extra="+ token._push_pop_atom_branch (which atom a descriptor sits on) on every text over '(', ')', 'C' up to "
+                           "length 6 (thorough: 9) x 5 stacks against the ensures clauses of its contract")
+    extra = harness.merge(harness.run_tasks("monitor.purecheck", "work", [{"fn": "token._push_pop_atom_branch", "tier": tier, "prop": "C04"}], timeout=600), rule="")
+    out["evaluations"] += extra["evaluations"]
+    out["violations"] += extra["violations"]
+    out["crashes"] += extra["crashes"]
+    out["outside_pre"] += extra["outside_pre"]
+    return out
